@@ -74,7 +74,8 @@ def generated_items(rng, n):
     shapes = ["chain", "diamond", "funnel", "fanout", "twofail", "indep", "single", "layered", "random"]
     for i in range(n):
         shape = shapes[i % len(shapes)] if i < 2 * len(shapes) else None      # every shape at least twice
-        items.append({"case": e2e.gen_local_study(rng, shape=shape), "mode": "fg"})
+        # every fifth study through the detached path: `maestro run -n` stores it, the `conductor` entry point runs it
+        items.append({"case": e2e.gen_local_study(rng, shape=shape), "mode": "conductor" if i % 5 == 4 else "fg"})
     return items
 
 
